@@ -50,6 +50,14 @@ type Node struct {
 	pool      *blockchain.TxPool
 	salt      uint64
 	sdb       state.Database
+	everBest  map[wire.Hash]bool // blocks that have been on the best chain at some time
+}
+
+// WasBest: the block has been connected to the best chain at some time (it may be abandoned now).
+func (n *Node) WasBest(h wire.Hash) bool {
+	n.mu.Lock()
+	defer n.mu.Unlock()
+	return n.everBest[h]
 }
 
 func setUnexported(field reflect.Value, v interface{}) {
@@ -266,6 +274,10 @@ func (n *Node) attach(b *Block) error {
 	if b.Parent != tip {
 		return fmt.Errorf("attach: parent %d is not the tip %d", b.Parent.Height, tip.Height)
 	}
+	if n.everBest == nil {
+		n.everBest = map[wire.Hash]bool{}
+	}
+	n.everBest[b.Hash] = true
 	blk := massutil.NewBlock(b.Msg)
 	// the address index needs the inputs' previous outputs: compute before the block is submitted
 	ai, err := n.addrIndexFor(b)
